@@ -154,7 +154,29 @@ fn check_chunk(run: &Run, part: &str, units: &[Unit]) {
     for (i, u) in units.iter().enumerate() {
         if let Some(m) = roundtrip(u) {
             failed_alone[i] = true;
-            report_ops(run, part, u, &m);
+            // does the failure depend on what this worker thread decoded before?
+            if on_fresh("thread", || roundtrip(u)).is_some() {
+                report_ops(run, part, u, &m);
+            } else {
+                let before = &units[..i];
+                let again = on_fresh("thread", || {
+                    for b in before {
+                        let _ = roundtrip(b);
+                    }
+                    roundtrip(u)
+                });
+                run.eval(2 + before.len() as u64);
+                run.fail(
+                    None,
+                    json!({"kind": "ops_after", "part": part, "before": before.iter().map(|b| ops_to_json(b)).collect::<Vec<_>>(), "ops": ops_to_json(u), "reproduced_by_the_units_before": again.is_some()}),
+                    &format!(
+                        "{} -- the same operations round-trip on a thread that has decoded nothing else: the result depends on what the thread decoded before ({})",
+                        m,
+                        if again.is_some() { format!("reproduced on a new thread by first round-tripping the {} units that precede it in its chunk", before.len()) } else { "the state came from an earlier chunk on the same worker thread; see the history cases".to_string() }
+                    ),
+                    EXPECTED_HISTORY,
+                );
+            }
         }
     }
     // batch of the units that pass alone: every unit gets a predecessor and a successor
@@ -857,7 +879,8 @@ fn static_of(s: &str, menu: &[&'static str]) -> &'static str {
 /// `a` levels of arrays / dictionaries (`wrap`: array = `[x]`, dict = `<</K x>>`, alt = array
 /// outermost, then alternating) around / next to a literal string with `d` balanced levels of
 /// parentheses. `pos`: inner = the string is the innermost element; before / after = the string is
-/// a sibling operand of the nest (whose innermost element is then the integer 7).
+/// a sibling operand of the nest (whose innermost element is then the integer 7); inline = the nest
+/// with the string inside is an entry of an inline image's dictionary (`BI` with a Stream operand).
 #[derive(Clone, Debug, PartialEq)]
 struct Shape {
     wrap: &'static str,
@@ -867,7 +890,7 @@ struct Shape {
     hex: bool,
 }
 
-const POSITIONS: [&str; 3] = ["inner", "before", "after"];
+const POSITIONS: [&str; 4] = ["inner", "before", "after", "inline"];
 
 impl Shape {
     fn to_json(&self) -> Value {
@@ -904,6 +927,16 @@ impl Shape {
         let operands = match self.pos {
             "inner" => vec![self.nest(self.string())],
             "before" => vec![self.string(), self.nest(Object::Integer(7))],
+            "inline" => {
+                // a decoded inline image whose dictionary holds the nest
+                let mut d = Dictionary::new();
+                d.set("W", Object::Integer(1));
+                d.set("H", Object::Integer(1));
+                d.set("CS", Object::Name(b"DeviceGray".to_vec()));
+                d.set("BPC", Object::Integer(8));
+                d.set("X", self.nest(self.string()));
+                return vec![op("BI", vec![Object::Stream(Stream::new(d, b"x".to_vec()))])];
+            }
             _ => vec![self.nest(Object::Integer(7)), self.string()],
         };
         vec![op("sc", operands)]
@@ -975,6 +1008,24 @@ fn on_fresh<T: Send>(place: &str, f: impl FnOnce() -> T + Send) -> T {
 
 const PLACES: [&str; 2] = ["thread", "rayon"];
 
+/// Run `f(i)` for i in 0..n from plain driver threads (not from workers of the global rayon pool:
+/// a case may call Document::load_mem, which waits for that pool).
+fn drive(n: usize, f: impl Fn(usize) + Sync) {
+    let next = std::sync::atomic::AtomicUsize::new(0);
+    let k = std::thread::available_parallelism().map(|x| x.get()).unwrap_or(8);
+    std::thread::scope(|s| {
+        for _ in 0..k {
+            s.spawn(|| loop {
+                let i = next.fetch_add(1, Ordering::Relaxed);
+                if i >= n {
+                    break;
+                }
+                f(i);
+            });
+        }
+    });
+}
+
 const EXPECTED_SHAPE: &str = "decode(encode(ops)) == ops: arrays / dictionaries nested up to 127 levels and literal strings with any number of balanced parenthesis levels (the writer escapes what the reader would not accept) each round-trip alone, so they round-trip combined in one operand list";
 
 fn part_e(run: &Run) {
@@ -985,8 +1036,8 @@ fn part_e(run: &Run) {
         for &a in &a_list {
             for &d in &d_list {
                 for pos in POSITIONS {
-                    if a == 0 && (pos != "inner" || wrap != "array") {
-                        continue; // without a nest the three wraps and positions coincide
+                    if a == 0 && ((pos != "inner" && pos != "inline") || wrap != "array") {
+                        continue; // without a nest the three wraps and the sibling positions coincide
                     }
                     shapes.push(Shape { wrap, a, d, pos, hex: false });
                 }
@@ -1001,7 +1052,10 @@ fn part_e(run: &Run) {
         let ops = sh.ops();
         for entry in ENTRIES {
             run.eval(1);
-            if let Some(m) = roundtrip_via(&ops, entry) {
+            if let Some(mut m) = roundtrip_via(&ops, entry) {
+                if on_fresh("thread", || roundtrip_via(&ops, entry)).is_none() {
+                    m.push_str(" -- the same shape round-trips on a thread that has decoded nothing else: the result depends on what this worker thread decoded before; see the history cases");
+                }
                 failed.fetch_add(1, Ordering::Relaxed);
                 run.fail(None, json!({"kind": "shape", "part": "nesting_grid", "shape": sh.to_json(), "entry": entry}), &format!("{}: {} -> {}: {}", sh.label(), "Content::encode", entry, m), EXPECTED_SHAPE);
             }
@@ -1060,9 +1114,23 @@ struct Prelude {
     m: usize,
 }
 
-const PRELUDE_KINDS: [&str; 17] = [
-    "nest", "open", "open_elem", "half_closed", "wrong_closer", "bad_token", "string_open", "string_open_in_array", "string_deep", "closers", "prefix",
+const PRELUDE_KINDS: [&str; 18] = [
+    "wellformed", "nest", "open", "open_elem", "half_closed", "wrong_closer", "bad_token", "string_open", "string_open_in_array", "string_deep", "closers", "prefix",
     "inline_open", "inline_nest", "inline_data", "load_open", "load_nest", "long",
+];
+
+/// Small well-formed content streams (empty containers, every kind of success path).
+const WELLFORMED: [&[u8]; 8] = [
+    b"[] sc",
+    b"<<>> sc",
+    b"[[] <<>> [[]]] sc",
+    b"<</K [] /L <<>>>> sc",
+    b"() Tj <> Tj / gs",
+    b"BI /W 1 /H 1 /CS /DeviceGray /BPC 8 /D [] /X <<>> ID x EI",
+    b"[<</K [<</K []>>]>>] sc [(a(b)c)] TJ",
+    b"% comment
+1 2 3 sc % another
+",
 ];
 
 /// A content stream that uses every token kind; its prefixes are "content truncated at every offset".
@@ -1130,6 +1198,7 @@ impl Prelude {
         let (w, n) = (self.wrap, self.n);
         let cat = |parts: &[&[u8]]| -> Vec<u8> { parts.concat() };
         match self.kind {
+            "wellformed" => WELLFORMED[self.m % WELLFORMED.len()].to_vec(),
             // well-formed nest of n levels (over-deep when n > 127)
             "nest" => cat(&[&openers(w, n), b"1", &closers(w, n, n), b" sc"]),
             // ends right after the n-th opening delimiter
@@ -1233,6 +1302,9 @@ fn prelude_menu(thorough: bool) -> Vec<Prelude> {
     }
     for n in [0usize, 1, 242] {
         menu.push(Prelude { kind: "inline_data", wrap: "array", n, m: 0 });
+    }
+    for m in 0..WELLFORMED.len() {
+        menu.push(Prelude { kind: "wellformed", wrap: "array", n: 0, m });
     }
     menu.push(Prelude { kind: "long", wrap: "array", n: 70000, m: 1 });
     menu.push(Prelude { kind: "long", wrap: "array", n: 300, m: 40 });
@@ -1395,12 +1467,18 @@ fn part_f(run: &Run) {
                 continue;
             }
             for place in PLACES {
+                // Document::load_mem parses objects on the workers of the current rayon pool: inside
+                // the one-thread pool that is the thread the probes run on; from a plain thread it
+                // would be the global pool, which the probes never see
+                if menu[pi].kind.starts_with("load_") && place != "rayon" {
+                    continue;
+                }
                 cases.push((pi, reps, place));
             }
         }
     }
     let decodes = AtomicU64::new(0);
-    util::par_for(cases.len(), |c| {
+    drive(cases.len(), |c| {
         let (pi, reps, place) = cases[c];
         let got = on_fresh(place, || run_history(Some((&menu[pi], reps)), &probes));
         decodes.fetch_add((reps + probes.len()) as u64, Ordering::Relaxed);
@@ -1426,7 +1504,7 @@ fn part_f(run: &Run) {
             pairs.push((x, y));
         }
     }
-    util::par_for(pairs.len(), |c| {
+    drive(pairs.len(), |c| {
         let (x, y) = pairs[c];
         let got = on_fresh("thread", || {
             let (bx, by) = (menu[x].bytes(), menu[y].bytes());
@@ -1578,7 +1656,7 @@ fn part_g(run: &Run) {
 
 fn main() {
     let run = Run::from_args("C14", "exploration");
-    if std::env::var("C14_LOUD").is_err() { util::quiet_panics(); }
+    util::quiet_panics();
     util::init_pool();
     util::pin_schedule();
     if let Mode::Replay(path) = run.mode.clone() {
@@ -1600,6 +1678,8 @@ fn main() {
     run.assume("inline images: unfiltered, colour-space names listed in image_data_stream (DeviceGray Gray DeviceRGB RGB DeviceRGBA RGBA DeviceCMYK CMYK), BPC in {1,2,4,8,16}, W 1..4, H 1..3, abbreviated or full keys, one white-space byte after ID and before EI");
     run.assume("arrays and dictionaries nested up to 127 levels are in the domain (found by experiment on the unchanged tree: lopdf's parser accepts 127 and rejects the 128th level, MAX_NESTING = 128; deeper operands are measured and recorded, not demanded); literal strings with any number of parenthesis levels are in the domain (the writer escapes the levels beyond the reader's MAX_BRACKET = 100)");
     run.assume("history independence: the preludes are arbitrary bytes handed to Content::decode (or Document::load_mem) whose result is ignored; only the later results for the fixed probe list are compared, with the results on a thread created for the purpose");
+    // first: its cases run on threads of their own, so its replays reproduce whatever else leaks
+    part_f(&run);
     part_a(&run);
     part_b(&run);
     part_c_trees(&run);
@@ -1608,8 +1688,6 @@ fn main() {
     part_d(&run);
     part_e(&run);
     part_g(&run);
-    // last: the only part that feeds the decoder content it must reject
-    part_f(&run);
     // complete for the stated bounds; the data of long inline images is a pattern set, not all strings
     run.set("exhaustive_parts", json!({"byte_pairs": true, "sharp_tuples": true, "operators_x_operand_kinds": true, "trees_le3": true, "sequences": true, "inline_geometries": true, "inline_data_longer_than_bound": "pattern set",
                                        "nesting_grid": true, "history_menu_x_repetitions_x_places": true, "long_lengths": "listed lengths"}));
@@ -1643,6 +1721,17 @@ fn replay(run: &Run, path: &std::path::Path) -> ! {
                 Err(ImgFail::FirstDecode(m)) => Some(m),
                 Err(ImgFail::Reencode(_, m)) => Some(m),
             }
+        }
+        Some("ops_after") => {
+            let before: Vec<Vec<Operation>> = case["before"].as_array().map(|a| a.iter().map(ops_from_json).collect()).unwrap_or_default();
+            let ops = ops_from_json(&case["ops"]);
+            println!("on a new thread: round trip of {} earlier units, then: {}", before.len(), ops.iter().map(show_op).collect::<Vec<_>>().join(" | "));
+            on_fresh("thread", || {
+                for b in &before {
+                    let _ = roundtrip(b);
+                }
+                roundtrip(&ops)
+            })
         }
         Some("shape") => {
             let sh = Shape::from_json(&case["shape"]);
